@@ -220,6 +220,131 @@ claim("C16",
       "mutators oracle-only; material caches oracle-only; serial uniqueness excludes pickle and DB load, which preserve serials by "
       "design; MPI; listed findings excluded.")
 
+
+# ---- texts updated after builders' stage 2/3 (later claim() overrides the earlier one) ----
+claim("C01",
+      "Lean 4 theorems over an arena model with separate back-pointer and child list: every reachable state of any finite "
+      "valid-use history (add, insert, remove, removeAll, setChildren, sort, reestablishBlockOrder, moveTo, deepcopy and pickle "
+      "round trips in any order) is a well-formed (parent/child agreement both ways, no duplicates), acyclic forest of live "
+      "objects (wfl_run); remove detaches; a copy or unpickled subtree is shape-equal, shares no node with the original, is "
+      "internally re-linked (children, grids), its root is parentless and the original is untouched (copy_spec, pickle_spec); "
+      "traversals meet their naive-walk specs (predicate filter, generation, deep membership = strict descendant each once in the "
+      "stated order, components, ancestors); the excluded points of the listed findings provably break the invariant. Tied to real "
+      "Composite, HexBlock, HexAssembly and Core objects by whole-tree state comparison after every operation plus an independent oracle.",
+      "deepcopy and pickle are one model operation; locator and grid content beyond attached/owner (C07); the sort comparator "
+      "(ranks from the real __lt__); Core.add bookkeeping (C14); parameter payload of copies (C16); Block geometry bookkeeping.")
+claim("C04",
+      "Lean theorems over executable transcriptions of the layout logic, composed with C05's model: compose inverts flatten for "
+      "all trees and row lists; the loaded tree is the saved tree with every child list sorted, identical iff the lists were "
+      "already sorted (the child-order finding stated exactly); every object is paired with its own row and its own parameter value "
+      "is decoded up to the documented normalisations (save_load_param_own = compose_flatten + param_lookup_own + C05's "
+      "write_read_faithful); all four location kinds round-trip; grid-table lookup is lossless; computeAncestors returns the parents. "
+      "Tied on every run to the real Layout arrays, the file's layout datasets, _unpackLocations, computeAncestors, "
+      "sorted(children) and generated composite trees; the whole property is exercised as a canonical-dump oracle on five shipped "
+      "inputs under seeded edits through the real writeToDB/load (ragged n-d arrays, dict key-set edits, fractional coordinates, "
+      "rotations, full-core conversion; load-twice and save-of-load).",
+      "h5py, blueprint re-construction of components, material lookup, reduce() and Component.__lt__ are checked by the whole-stack "
+      "oracle only; shipped inputs replace generated blueprints; arbitrary values go to free parameters only (derived list explicit "
+      "in c04.py); listed findings excluded.")
+claim("C05",
+      "Lean theorems over an executable transcription of _writeParams / JaggedArray / packSpecialData / NONE_MAP / FlagSerializer: "
+      "every one-dtype per-object value list is either refused at write time or reads back equal up to the documented "
+      "normalisations through all strategies (plain, None-sentinel scalars and fixed-shape arrays, ragged n-d, dict with key "
+      "union), the single guard being 'no value equal to the None sentinel next to a None'; writer and reader sentinels agree for "
+      "every dtype of the NONE_MAP regenerated from layout.py on every run; flag sets keep their meaning end to end (pack, bytes, "
+      "unpack) for any two classes satisfying the auto() invariant. Tied on every run to the real _writeParams -> HDF5 -> _readParams "
+      "and _packImpl -> HDF5 -> _unpackImpl on seeded and exhaustive inputs.",
+      "numpy promotion, 'inhomogeneous shape raises', h5py's refusal of unicode arrays and HDF5 storage are parameters checked by "
+      "correspondence; nesting modelled to depth 2; mixed-dtype columns judged by the oracle only (finding); explicit "
+      "non-consecutive flag values and sentinel collisions are listed findings.",
+      "Lean 4 theorems + kernel-checked obligations over constants regenerated from /repo + correspondence check")
+claim("C11",
+      "Lean theorems over an exact rational model of getBlocksBetweenElevations, setNumberDensitiesFromOverlaps, "
+      "setAssemblyStateFromOverlaps, _filterMesh, resampleStepwise, average1DWithinTolerance and getBlockAtElevation: for all "
+      "contiguous mesh pairs over the same height and all profiles, atom conservation, integrated-total conservation, "
+      "height-weighted means, constants, peaks (values >= 0), round-trip totals, the partition of every window with the 1e-10 "
+      "sliver filter characterised exactly, the full _filterMesh specification incl. refusal for both preferences, and "
+      "resampleStepwise conservation and mean for arbitrary strictly increasing meshes. Tied on every run by same-input "
+      "correspondence on real fixture assemblies and generated inputs (nearly coincident meshes, repeated re-meshing, unset-value "
+      "patterns x parameter listing orders) plus an independent oracle.",
+      "floating-point rounding; points 1e-7..3e-11 apart are oracle-only; XS-type selection and createHomogenizedCopy; output "
+      "cells left of the first input point follow Python negative-index slicing (correspondence only); np.digitize / sorted(set()) "
+      "modelled by definition.")
+claim("C12",
+      "Lean theorems over executable models of axiallyExpandAssembly, areAxiallyLinked, the AssemblyAxialLinkage construction and "
+      "target selection (_setTargetComponents / determineTargetComponent): for any block count and any sequence of expansions, "
+      "height preservation, contiguity, boundary-follows-target, linked stacking, positivity, uniform-growth conservation, inverse "
+      "restoration; linkage symmetry and mutuality; uniqueness and validity of the chosen target; target-mass conservation under a "
+      "hypothesis decidable from component geometry, which fails exactly on the two blocks of the listed finding, where the negation "
+      "is proved. The model computes linkage and targets itself from bounding dimensions, class, multiplicity and flags read from "
+      "the real objects and is compared on every case (fixture and constructor-built assemblies, tiny steps, paths through 0 C).",
+      "bounding-diameter getters and containsSolidMaterial are inputs; Flags constants and TARGET_FLAGS_IN_PREFERRED_ORDER are data; "
+      "material correlations and temperature averaging are inputs cross-checked against linearExpansionPercent; radial part is C03's; rounding.")
+claim("C13",
+      "Kernel-checked theorems over a transcription of ThirdCoreHexToFullCoreChanger and EdgeAssemblyChanger: for every third-core "
+      "hex core the converted core consists exactly of the 120-degree orbits with no collision; count, mass, volume and every "
+      "volume-integrated total are x3 with the centre counted once; copies are freshly named, payload-equal and rotated into place; "
+      "restore after convert and removeEdge after addEdge are the identity; the theorems hold in every state reachable by any "
+      "sequence of the four operations from a freshly loaded third core (good_run, run_third_content, run_full_is_conversion, "
+      "run_scalesCentre); the condition under which convert scales the centre is characterised exactly. Tied to the real reference "
+      "reactor and cut-down variants by per-operation state comparison plus an implementation-side oracle.",
+      "float rounding of mass/volume (1e-9); deepcopy independence (oracle); block-internal rotation is C08's; lookup tables derived "
+      "in the model; the assignment flag is one boolean; three listed findings are explicit excluded points.")
+claim("C14",
+      "Kernel-checked invariants over a transcription of swap, cascade, dischargeSwap, Core.add, Core.removeAssembly and "
+      "Assembly.moveTo: nothing duplicated, one assembly per cell, location table a bijection, present assemblies found by name, "
+      "purged ones not (inv_run over any history); multiset inventory conservation per step and per history; at block level, over "
+      "arbitrary histories including purges, either tracking setting and stationary blocks changing hands, every block present is "
+      "found, nothing else is, and no block is shared (blocks_run_with_purge); contents-unchanged and stationary-stay theorems; at "
+      "name level Core.add of a fresh assembly registers exactly the current names. Tied by whole-state comparison after every "
+      "operation of random histories under all tracking x stationary settings, name probes, and an oracle that checks by name.",
+      "the identity-level state machine identifies names with objects (the name layer covers Core.add, dischargeSwap and purge); SFP "
+      "cell coordinates, move bookkeeping and symmetry rescaling of parameters on moves not modelled; listed findings are excluded points.")
+claim("C15",
+      "Two models, both tied to real Operators. (a) Schedule: `run` transcribes _mainOperate/_cycleLoop/_timeNodeLoop/"
+      "_performTightCoupling/getActiveInterfaces/_interactAll and is proved equal, for every configuration, to an independent "
+      "declarative schedule; further theorems cover the active-interface rule, stack and end-of-life order, node order without "
+      "gaps, halting, coupling iteration counts, argument/time-state agreement, all node and step arithmetic inverses, cumulative "
+      "numbering = visit order, step-length sums. (b) Stack construction: getInterface, addInterface (position, flags, "
+      "duplicate-name refusal, same-function replacement), removeInterface and createInterfaces' stable ORDER sort, with "
+      "addInterface_keeps_order, names_unique over any add/remove sequence and createInterfaces_sorted. Tie: exact event logs of "
+      "real runs with recording interfaces; exhaustive node arithmetic for burn-step vectors of length <= 4; add/remove/get "
+      "sequences; the real createInterfaces on real settings.",
+      "_processInterfaceDependencies passes; float rounding of step lengths; r.p.stepLength and power inside hooks; MPI workers; "
+      "which configurations are refused is correspondence-only.")
+claim("C16",
+      "Lean 4 theorems over a model with back-up stacks for parameter values, caches, grids and definition flags: for any program of "
+      "assignments (default or custom setters, incl. refusing, transforming and fanning-out ones) and arbitrarily nested scopes, a "
+      "scope restores every non-kept parameter of every object beneath it (never-assigned ones become unset again), keeps the kept "
+      "ones, restores cache and grid, leaves all back-up chains balanced and determines the definition flags; deep copies are equal "
+      "and independent; serials are fresh and unique over create/deepcopy, preserved by pickle and unique per tree; read-only refuses "
+      "every assignment. Tied to real reactor objects by per-step dumps of every parameter (incl. in-place mutation of nested "
+      "payloads and unset status), a snapshot oracle and an API-level stream.",
+      "values are equality codes (pickle/deepcopy fidelity of leaf values is exercised, not proved); in-place mutation is a model "
+      "operation outside Prog; setters that touch other objects; API mutators and material caches oracle-only; one listed finding "
+      "(kept parameter holding nested arrays); MPI.")
+claim("C19",
+      "Lean proves that every identifier construction (name, label, MCNP, AAAZZZS, database name) is injective both as a structured "
+      "value and as the character string Python produces. For the table REGENERATED from /repo's nuclides.dat, burn-chain.yaml and "
+      "mcc-nuclides.yaml on each run the kernel re-checks (decide +kernel, linear passes) that all 4624 nuclides have pairwise "
+      "distinct identifier strings and belong to their element, that symbol <-> Z is a bijection, that natural isotopics (isomers "
+      "included, equal to what the implementation reports) sum to one, that burn-chain products exist with branches in [0,1] and "
+      "that MC2 ids are unique per library. Every loaded nuclide and every lookup is compared exhaustively (object identity).",
+      "lumped and dummy pseudo-nuclides are defined in code; MC2 ids are data; the material-library half is an exhaustive "
+      "enumeration of classes (repeated instantiation, both temperature units) at sampled temperatures incl. exact range ends - "
+      "testing, not a theorem.",
+      "Lean 4 theorems + kernel-checked obligations over tables regenerated from /repo + exhaustive correspondence")
+claim("C20",
+      "Lean theorems over exact rationals: grouping partitions blocks by micro suffix; environment-group assignment is total and "
+      "monotone for any bounds and two blocks share an XS group iff XS type, burnup group and temperature group agree; every "
+      "admissible label converts to its number and back without collision; averaged values are weight-normalised means of eligible "
+      "members (convex, equal-members, duplication and scale invariant); burnup is HM-weighted over eligible members; the median "
+      "block is an eligible member of rank floor(n/2). Tied exhaustively for labels (52 + 52^2) and on generated block sets of the "
+      "reference reactor for every collection variant, group structure and component insertion order, with an independent oracle "
+      "and before/after core dumps.",
+      "floating-point rounding of numpy sums; deep copy and LFP handling; 1-D slab/cylinder collections; getVolume/getMass/"
+      "getVolumeFractions are inputs; median keys a few ulp apart and one-/two-letter look-alike types are oracle-only excluded points.")
+
 NOT_YET = {}
 
 ALL = [f"C{n:02d}" for n in range(1, 21)]
